@@ -396,6 +396,10 @@ func (in *Interp) nondetTerm(name string, s smt.Sort) *smt.Term {
 
 func (in *Interp) nondetInt(name string, b *types.Basic) *smt.Term {
 	t := in.nondetTerm(name, in.intSort(b))
+	if in.cfg.Concrete != nil && t.IsConst() && t.S.K == smt.KInt {
+		// a replay value outside the type's range (perturbed models) wraps exactly as the native side's conversion does
+		return in.intConst(b, t.V)
+	}
 	if in.useInt(b) && !t.IsConst() {
 		lo, hi := typeRange(b)
 		in.intBounds[t.ID] = [2]*big.Int{lo, hi}
